@@ -315,7 +315,13 @@ func main() {
 		frontier := []st{{init, nil}}
 		var states, trans int64 = 1, 0
 		var probes int64
-		probe := []op{{Kind: "Get", Key: "a"}, {Kind: "Get", Key: "b"}, {Kind: "Get", Key: "c"}, {Kind: "Add", Key: "a", Val: "y", W: 1}, {Kind: "Get", Key: "a"}, {Kind: "GetOldest"}, {Kind: "RemoveOldest"}}
+		probeSeqs := [][]op{
+			{{Kind: "Get", Key: "a"}, {Kind: "Get", Key: "b"}, {Kind: "Get", Key: "c"}, {Kind: "Add", Key: "a", Val: "y", W: 1}, {Kind: "Get", Key: "a"}, {Kind: "GetOldest"}, {Kind: "RemoveOldest"}},
+			// another key is added, then key k is hit - with no other hit in between (one sequence per k)
+			{{Kind: "Add", Key: "b", Val: "y", W: 1}, {Kind: "Get", Key: "a"}, {Kind: "GetOldest"}},
+			{{Kind: "Add", Key: "c", Val: "y", W: 1}, {Kind: "Get", Key: "b"}, {Kind: "GetOldest"}},
+			{{Kind: "Add", Key: "a", Val: "y", W: 1}, {Kind: "Get", Key: "c"}, {Kind: "GetOldest"}},
+		}
 		maxDepth := 0
 		for len(frontier) > 0 && !c.OutOfBudget() {
 			cur := frontier[0]
@@ -349,14 +355,23 @@ func main() {
 					// only if the cache has no state beyond the ordered entry list (see dedup_argument); to notice a
 					// change that adds hidden history-dependent state, every such duplicate arrival is probed on the
 					// same real object with a short fixed continuation (a hit on every key, a re-add, the oldest).
-					probePath := append(append([]op{}, cur.path...), o)
-					for _, po := range probe {
-						probes++
-						probePath = append(probePath, po)
-						if msg := apply(real, m, po, &evicted); msg != "" {
-							c.Violation(cf.impl+"/"+po.Kind, map[string]interface{}{"impl": cf.impl, "maxWeight": cf.mw, "maxSize": cf.mn, "ops": probePath},
-								"%s(maxWeight=%d,maxSize=%d) after %v: %s", cf.impl, cf.mw, cf.mn, probePath, msg)
-							break
+					for pi, probe := range probeSeqs {
+						pr, pm := real, m
+						if pi > 0 { // a fresh object in the same (merged) state, reached along the same path
+							pr, pm = mk(), &model{maxW: cf.mw, maxN: cf.mn}
+							for _, po := range append(append([]op{}, cur.path...), o) {
+								apply(pr, pm, po, &evicted)
+							}
+						}
+						probePath := append(append([]op{}, cur.path...), o)
+						for _, po := range probe {
+							probes++
+							probePath = append(probePath, po)
+							if msg := apply(pr, pm, po, &evicted); msg != "" {
+								c.Violation(cf.impl+"/"+po.Kind, map[string]interface{}{"impl": cf.impl, "maxWeight": cf.mw, "maxSize": cf.mn, "ops": probePath},
+									"%s(maxWeight=%d,maxSize=%d) after %v: %s", cf.impl, cf.mw, cf.mn, probePath, msg)
+								break
+							}
 						}
 					}
 				}
